@@ -119,6 +119,43 @@ def do_decode(case: Case) -> str | None:
     return None
 
 
+_UNKNOWN_SIZES = (0, 1, 2, 3, 6, 17, 127, 128, 300)
+
+
+def _with_unknown(spec: describe.StructSpec, tree: dict, rng) -> dict:  # noqa: ANN001
+    """The same value as a newer peer would send it: every flexible struct in it (nested ones and array elements too) carries one tagged
+    field this schema version does not know - always the same tag number per struct type, with a payload of another size each time."""
+    out = dict(tree)
+    for fs in spec.fields:
+        v = out.get(fs.name)
+        if fs.kind == "struct" and isinstance(v, dict):
+            out[fs.name] = _with_unknown(fs.struct, v, rng)
+        elif fs.kind == "struct" and isinstance(v, (list, tuple)):
+            out[fs.name] = [_with_unknown(fs.struct, x, rng) for x in v]
+    if spec.flexible:
+        known = {fs.tag for fs in spec.tagged}
+        tag = next(t for t in range(0, 64) if t not in known)
+        out["$unknown"] = [(tag, rng.randbytes(rng.choice(_UNKNOWN_SIZES)))]
+    return out
+
+
+def do_decode_forward(case: Case, rng) -> str | None:  # noqa: ANN001
+    """Decoding what a newer peer sends (unknown tagged fields, skipped): the reader must give the same value whatever unknown fields it
+    has skipped before - their tags and sizes are facts about one message, not about the reader."""
+    from kio.serial import entity_reader
+
+    if not case.spec.flexible:
+        return do_decode(case)
+    data = refcodec.encode_bytes(case.spec, _with_unknown(case.spec, case.tree, rng))
+    src = io.BytesIO(data + b"\xee")
+    got = entity_reader(case.cls)(src)
+    if got != case.inst:
+        return f"decode of {walk.class_path(case.cls)} with unknown tagged fields gave a different value"
+    if src.tell() != len(data):
+        return f"decode of {walk.class_path(case.cls)} with unknown tagged fields consumed {src.tell()} of {len(data)} bytes"
+    return None
+
+
 def do_nullable(case: Case, null: bool) -> str | None:
     """The nullable variants (KIP-893 marker) of the same class's writer and reader, for a value or for null."""
     from kio.serial import entity_reader, entity_writer
@@ -213,13 +250,13 @@ def do_fail(case: Case, rng) -> str | None:  # noqa: ANN001
 def run_history(res: Result, rng, classes: list[type], hid: str, reuse_max: int) -> int:  # noqa: ANN001
     from kio.serial import entity_reader, entity_writer
 
-    entity_reader.cache_clear()
-    entity_writer.cache_clear()
+    common.cold(entity_reader)
+    common.cold(entity_writer)
     chosen = rng.sample(classes, min(len(classes), rng.randint(5, 40)))
     cases = [Case(c, rng, f"{hid}/{k}") for k, c in enumerate(chosen)]
     ops = []
     for k in range(rng.randint(30, 160)):
-        ops.append((rng.choice(("create_r", "create_w", "enc", "dec", "enc", "dec", "fail", "reuse", "nullable", "null")), rng.randrange(len(cases))))
+        ops.append((rng.choice(("create_r", "create_w", "enc", "dec", "enc", "dec", "fail", "reuse", "nullable", "null", "fwd", "fwd")), rng.randrange(len(cases))))
     log = []
     compared = 0
     for op, ci in ops:
@@ -241,6 +278,10 @@ def run_history(res: Result, rng, classes: list[type], hid: str, reuse_max: int)
                 compared += 2
             elif op == "fail":
                 why = do_fail(case, rng)
+            elif op == "fwd":
+                why = do_decode_forward(case, rng)
+                res.count("forward_compatible_decodes_in_histories")
+                compared += 1
             elif op == "reuse":
                 why = None
                 for _ in range(rng.randint(1, reuse_max)):
@@ -364,8 +405,8 @@ def schedules(res: Result, shard_i: int, shard_n: int, total: int, sigs: set, li
             for t in range(nthreads):
                 cls = base if same else rng.choice(tops)
                 thread_cases.append([Case(cls, rng, f"s{k}t{t}o{o}") for o in range(rng.randint(1, 2))])
-            entity_reader.cache_clear()
-            entity_writer.cache_clear()
+            common.cold(entity_reader)
+            common.cold(entity_writer)
             if warm:
                 for cs in thread_cases:
                     for case in cs:
@@ -396,8 +437,8 @@ def schedules(res: Result, shard_i: int, shard_n: int, total: int, sigs: set, li
                 if failures:
                     res.violation("sched:sequential", f"sequential threads misbehaved: {failures[0][2]}", {"failures": failures[:3]})
                     failures.clear()
-                entity_reader.cache_clear()
-                entity_writer.cache_clear()
+                common.cold(entity_reader)
+                common.cold(entity_writer)
                 if warm:
                     for cs in thread_cases:
                         for case in cs:
@@ -482,8 +523,8 @@ def fresh_schedules(res: Result, shard_i: int, shard_n: int, total: int, sigs: s
     for k in range(shard_i, total, shard_n):
         cases, d = _fresh_plan(k)
         # calibrate the horizon here (sequential, caches cleared); the child must not do it, or it would no longer be cold
-        entity_reader.cache_clear()
-        entity_writer.cache_clear()
+        common.cold(entity_reader)
+        common.cold(entity_writer)
         sch.start()
         try:
             s0, _ = sch.run([(lambda t=t: [do_encode(c) or do_decode(c) for c in cases[t]]) for t in range(len(cases))], seed=0, d=0, horizon=1)
@@ -753,8 +794,8 @@ def stress(res: Result, seconds: float, nthreads: int = 16) -> None:
     try:
         while time.time() < stop and not failures:
             rounds += 1
-            entity_reader.cache_clear()
-            entity_writer.cache_clear()
+            common.cold(entity_reader)
+            common.cold(entity_writer)
             per_thread = [[Case(rng.choice(classes), rng, f"x{rounds}t{t}o{o}") for o in range(6)] for t in range(nthreads)]
             barrier = threading.Barrier(nthreads)
 
